@@ -1,14 +1,14 @@
 \* only submitted_futures pins (term_to_vars not shared any more): CacheSound must still hold
-\* four ids, two tests
+\* two overlapping unsat sets of sizes 2 and 3
 SPECIFICATION Spec
 CONSTANTS
-  Ids = {1, 2, 3, 4}
-  Cons = {"a", "b", "c"}
-  UnsatFamily = {{"a", "b"}}
+  Ids = {1, 2, 3}
+  Cons = {"a", "b", "c", "d"}
+  UnsatFamily = {{"a", "b"}, {"b", "c", "d"}}
   PinFutures = TRUE
   PinTermVars = FALSE
   MaxTests = 2
   MaxInflight = 1
-  MaxCores = 1
+  MaxCores = 2
 INVARIANTS TypeOK HashConsed CacheSound CoresDenoteUnsat
 PROPERTIES PinnedStable
